@@ -2,6 +2,7 @@
 import concurrent.futures, json, os, traceback
 
 from vlib import common as C, e2e, sysrun as S
+from vlib.props import bridge_util as B
 
 PROP = "C01"
 THEOREMS = ["GitAi.DiffParse.parseHunkRanges_headerLine", "GitAi.DiffParse.parse_render_exact", "GitAi.DiffParse.normPath_plain",
@@ -272,6 +273,7 @@ def run(tier, seed):
         res.broken_tie("build", (out + out2)[-3000:])
         return res.finish()
     C.phase_proofs(res, PROP, THEOREMS) if os.path.exists(os.path.join(C.LEAN, "GitAiModel", "Props", "C01.lean")) else None
+    B.phase_bridge(res)  # byte-level tracker (C16 model) => Sys.checkpointAttr, the checkpoint rule commit_exact rests on
     n = 4000 if tier == "quick" else 100000
     bad, _ = C.phase_suite(res, "diffparse", seed, n, os.path.join(C.VERIF, "corpus", "C01", "diffparse.jsonl"))
     nsc = 160 if tier == "quick" else 3000
